@@ -2396,6 +2396,7 @@ class SimCounter(EventBasedCounter, SimStatisticsInterface):
         simulator.add_listener(ReplicationInterface.WARMUP_EVENT, self)
         self._key = key
         self._event_types: set[EventType] = {StatEvents.DATA_EVENT}
+        self._producers: list = []  # (producer, event_type) listened to
         if producer != None or event_type != None:
             self.listen_to(producer, event_type)
         if simulator.model != None:
@@ -2443,6 +2444,7 @@ class SimCounter(EventBasedCounter, SimStatisticsInterface):
             raise TypeError(f"event_type {event_type} not an EventType")
         self._event_types.add(event_type)
         producer.add_listener(event_type, self)
+        self._producers.append((producer, event_type))
 
     @property
     def key(self) -> str:
@@ -2674,6 +2676,7 @@ class SimTally(EventBasedTally, SimStatisticsInterface):
         simulator.add_listener(ReplicationInterface.WARMUP_EVENT, self)
         self._key = key
         self._event_types: set[EventType] = {StatEvents.DATA_EVENT}
+        self._producers: list = []  # (producer, event_type) listened to
         if producer != None or event_type != None:
             self.listen_to(producer, event_type)
         if simulator.model != None:
@@ -2721,6 +2724,7 @@ class SimTally(EventBasedTally, SimStatisticsInterface):
             raise TypeError(f"event_type {event_type} not an EventType")
         self._event_types.add(event_type)
         producer.add_listener(event_type, self)
+        self._producers.append((producer, event_type))
 
     @property
     def key(self) -> str:
@@ -2978,6 +2982,7 @@ class SimWeightedTally(EventBasedWeightedTally, SimStatisticsInterface):
         simulator.add_listener(ReplicationInterface.WARMUP_EVENT, self)
         self._key = key
         self._event_types: set[EventType] = {StatEvents.WEIGHT_DATA_EVENT}
+        self._producers: list = []  # (producer, event_type) listened to
         if producer != None or event_type != None:
             self.listen_to(producer, event_type)
         if simulator.model != None:
@@ -3026,6 +3031,7 @@ class SimWeightedTally(EventBasedWeightedTally, SimStatisticsInterface):
             raise TypeError(f"event_type {event_type} not an EventType")
         self._event_types.add(event_type)
         producer.add_listener(event_type, self)
+        self._producers.append((producer, event_type))
 
     @property
     def key(self) -> str:
@@ -3302,6 +3308,7 @@ class SimPersistent(EventBasedTimestampWeightedTally, SimStatisticsInterface):
         simulator.add_listener(ReplicationInterface.END_REPLICATION_EVENT, self)
         self._key = key
         self._event_types: set[EventType] = {StatEvents.TIMESTAMP_DATA_EVENT}
+        self._producers: list = []  # (producer, event_type) listened to
         if producer != None or event_type != None:
             self.listen_to(producer, event_type)
         if simulator.model != None:
@@ -3350,6 +3357,7 @@ class SimPersistent(EventBasedTimestampWeightedTally, SimStatisticsInterface):
             raise TypeError(f"event_type {event_type} not an EventType")
         self._event_types.add(event_type)
         producer.add_listener(event_type, self)
+        self._producers.append((producer, event_type))
 
     @property
     def key(self) -> str:
